@@ -160,6 +160,78 @@ fn candidates(case: &Value) -> Value {
     res
 }
 
+fn rtype(v: &Value) -> RecordType {
+    match v.as_u64().expect("type tag") {
+        0 => RecordType::Chunk,
+        1 => RecordType::Scratchpad,
+        n => RecordType::NonChunk(XorName([n as u8; 32])),
+    }
+}
+
+fn rtype_tag(t: &RecordType) -> u64 {
+    match t {
+        RecordType::Chunk => 0,
+        RecordType::Scratchpad => 1,
+        RecordType::NonChunk(x) => x.0[0] as u64,
+    }
+}
+
+fn fetch_sched(case: &Value) -> Value {
+    use ant_networking::verif_hooks::replication_fetcher::Fetcher;
+    let rt = tokio::runtime::Builder::new_current_thread()
+        .enable_all()
+        .build()
+        .expect("runtime");
+    rt.block_on(async {
+        let (event_sender, _event_receiver) = tokio::sync::mpsc::channel(64);
+        let mut fetcher = Fetcher::new(peer(&case["self"]), event_sender);
+        if !case["range"].is_null() {
+            fetcher.set_replication_distance_range(u256(&case["range"]));
+        }
+        let dump = |f: &Fetcher| -> (Value, Value) {
+            let (pending, ongoing) = f.dump();
+            let p: Vec<Value> = pending
+                .iter()
+                .map(|(k, t, h, _)| json!([hex::encode(k.as_ref()), rtype_tag(t), hex::encode(h.to_bytes())]))
+                .collect();
+            let o: Vec<Value> = ongoing
+                .iter()
+                .map(|(k, t, h, _)| json!([hex::encode(k.as_ref()), rtype_tag(t), hex::encode(h.to_bytes())]))
+                .collect();
+            (json!(p), json!(o))
+        };
+        let (max_parallel, _, _) = ant_networking::verif_hooks::replication_fetcher::constants();
+        let mut steps = vec![];
+        for st in case["steps"].as_array().expect("steps") {
+            let (pre_p, pre_o) = dump(&fetcher);
+            let out = match st["s"].as_str().expect("step kind") {
+                "add" => {
+                    let keys: Vec<(NetworkAddress, RecordType)> = st["keys"]
+                        .as_array()
+                        .expect("keys")
+                        .iter()
+                        .map(|e| (NetworkAddress::RecordKey(Bytes::from(hexb(&e[0]))), rtype(&e[1])))
+                        .collect();
+                    fetcher.add_keys(peer(&st["holder"]), keys, &std::collections::HashMap::new())
+                }
+                "put" => fetcher.notify_about_new_put(RecordKey::new(&hexb(&st["key"])), rtype(&st["type"])),
+                "early" => {
+                    fetcher.notify_fetch_early_completed(RecordKey::new(&hexb(&st["key"])), rtype(&st["type"]))
+                }
+                "next" => fetcher.next_keys_to_fetch(),
+                other => panic!("unknown step {other}"),
+            };
+            let (post_p, post_o) = dump(&fetcher);
+            let out: Vec<Value> = out
+                .iter()
+                .map(|(h, k)| json!([hex::encode(h.to_bytes()), hex::encode(k.as_ref())]))
+                .collect();
+            steps.push(json!({"pre_p": pre_p, "pre_o": pre_o, "out": out, "post_p": post_p, "post_o": post_o}));
+        }
+        json!({"steps": steps, "max_parallel": max_parallel})
+    })
+}
+
 fn run(case: &Value) -> Value {
     match case["op"].as_str().expect("op") {
         // one address: its bytes, record key, hashed kbucket bytes, and the raw-key form
@@ -291,6 +363,9 @@ fn run(case: &Value) -> Value {
                 "keys_bytes": keys_bytes,
             })
         }
+        // a scheduling history of one ReplicationFetcher: adverts from several holders, completions,
+        // plain scheduling calls; both maps are dumped before and after every step
+        "fetch_sched" => fetch_sched(case),
         "store_count" => {
             let dir = std::env::temp_dir().join(format!(
                 "verif-c11-store-{}-{}",
